@@ -35,16 +35,20 @@ metas, clock reading and retention:
      `AddOrReplaceRotatedSegmeta` leaves exactly one entry of its key, the new one, last.  Guard: every
      line is shorter than the scanner's 1 MiB limit (a line holds two paths and an index name); without
      the guard the statement is false (counterexample; characterised: such a file is never rewritten).
+     For EVERY file (no guard): the file afterwards is untouched or exactly its preserved entries, no
+     survivor is ever dropped (segmeta_rewrite_all_or_nothing, _keeps_survivors).
      The line-level rewrite refines the `segmeta` step of the protocol in 2.–4.; written-then-scanned
      files deliver exactly the written lines (bufio.ScanLines mirrored).
-  7. metricmeta.json (`ReadMetricsMeta`, `removeMetricsSegmentsByList`, the metrics half of every pass): the
-     same statements for a file of any number of lines, each shorter than 64 KiB (both functions use a
-     DEFAULT bufio.Scanner).  A MetricsMeta line carries the segment's whole tag-key set, so the guard is
-     not vacuous in practice, and without it the code violates the property (known finding, counterexample
-     theorems): one longer line and `ReadMetricsMeta` returns an error — every pass returns without
-     deleting anything, expired segments stay for ever (metrics_pass_blocked_by_long_line) — and the
-     rewrite itself, which only logs the scanner's error, drops every entry from that line on, survivors
-     included (metricsmeta_rewrite_drops_tail).
+  7. metricmeta.json (`ReadMetricsMeta`, `removeMetricsSegmentsByList`, the metrics half of every pass), after
+     two repairs in /repo (both functions scanned with a DEFAULT bufio.Scanner, 64 KiB, although a
+     MetricsMeta line carries the segment's whole tag-key set; and the rewrite only logged the scanner's
+     error and rewrote the file from the part it had read): at full strength, for every file, NO survivor
+     is ever dropped and the file afterwards is either untouched or exactly the surviving entries
+     (metricsmeta_rewrite_keeps_survivors, _all_or_nothing, _unchanged_on_read_error); for lines shorter than
+     the new 64 MiB limit the rewrite and the pass are exact (metricsmeta_rewrite_exact, metrics_pass_exact);
+     what is left: a line of ≥ 64 MiB still blocks the passes (metrics_pass_blocked_by_long_line, counterexample).
+     The behaviour before the repairs is kept as `mmReadOld` / `mmRemoveOld` / `mmPassOld` with its
+     counterexample theorems (…_old_…).
 -/
 import SigModel.Model.Retention
 import SigModel.Lemmas.C14
@@ -661,22 +665,55 @@ theorem segmeta_file_lines_roundtrip (ls : List (List Nat)) (h : ∀ l ∈ ls, 1
     simp [smDropCR, hl.2]
 
 
-/-! ### 7. metricmeta.json: the reader and the rewrite use a 64 KiB scanner -/
+/-- At full strength, for EVERY segmeta.json (lines of any length, junk, duplicates) and every argument of
+`removeSegmetas`: the file afterwards is the file before, or exactly its preserved entries — the function
+never rewrites from a partial read (`reader.Err() != nil` → `return nil`). -/
+theorem segmeta_rewrite_all_or_nothing (a : SmArgs) (ls : List SmLine) :
+    (smRemove a (.lines ls)).1 = .lines ls ∨ (smRemove a (.lines ls)).1.lineList = smPreserved a ls := by
+  unfold smRemove
+  split
+  · exact Or.inl rfl
+  · simp only
+    split
+    · exact Or.inl rfl
+    · rename_i herr
+      simp only [Bool.not_eq_true] at herr
+      have hsc : (smScan ls).1 = ls := smScanWith_noErr smScanLimit ls herr
+      rw [hsc]
+      split
+      · exact Or.inl rfl
+      · right
+        split
+        · rename_i hemp
+          rw [List.isEmpty_iff.mp hemp]
+          rfl
+        · rfl
 
-/-- the rewrite of metricmeta.json, for a file of any number of lines, each shorter than 64 KiB: what
-`ReadMetricsMeta` finds afterwards is exactly the entries whose key was not to be removed, in order, and it
-reports no error -/
+/-- … so no entry that was not to be removed is ever dropped from segmeta.json, whatever the file looks like -/
+theorem segmeta_rewrite_keeps_survivors (a : SmArgs) (ls : List SmLine) (l : SmLine)
+    (hl : l ∈ ls) (he : l.isEntry = true) (hr : a.removes l = false) :
+    l ∈ (smRemove a (.lines ls)).1.lineList := by
+  rcases segmeta_rewrite_all_or_nothing a ls with h | h
+  · rw [h]; exact hl
+  · rw [h]
+    exact List.mem_filter.mpr ⟨hl, by simp [he, hr]⟩
+
+/-! ### 7. metricmeta.json (after the two repairs: 64 MiB scanner, no rewrite after a read error) -/
+
+/-- the rewrite of metricmeta.json, for a file of any number of lines, each shorter than the scanner's
+64 MiB: what `ReadMetricsMeta` finds afterwards is exactly the entries whose key was not to be removed, in
+order, and it reports no error -/
 theorem metricsmeta_rewrite_exact (victim : Nat → Bool) (ls : List SmLine) (h : AllShorter mmScanLimit ls) :
     mmRead (mmRemove false victim (.lines ls)) = (survivors victim ls, false) := by
-  unfold mmRemove
+  unfold mmRemove mmRead
   simp only [Bool.false_eq_true, if_false, smScanWith_allShorter mmScanLimit ls h]
   by_cases hv : ((ls.filter (·.isEntry)).any (fun l => victim l.key)) = true
   · simp only [hv, Bool.not_true, Bool.false_eq_true, if_false]
     by_cases he : ((ls.filter (·.isEntry)).filter (fun l => !victim l.key)).isEmpty = true
-    · simp only [he, if_true, mmRead]
+    · simp only [he, if_true, mmReadWith]
       unfold survivors
       rw [List.isEmpty_iff.mp he]
-    · simp only [he, Bool.false_eq_true, if_false, mmRead]
+    · simp only [he, Bool.false_eq_true, if_false, mmReadWith]
       have hs : AllShorter mmScanLimit ((ls.filter (·.isEntry)).filter (fun l => !victim l.key)) :=
         fun l hl => h l (List.mem_filter.mp (List.mem_filter.mp hl).1).1
       rw [smScanWith_allShorter mmScanLimit _ hs]
@@ -686,7 +723,7 @@ theorem metricsmeta_rewrite_exact (victim : Nat → Bool) (ls : List SmLine) (h 
       intro l hl
       exact (List.mem_filter.mp (List.mem_filter.mp hl).1).2
   · simp only [Bool.not_eq_true] at hv
-    simp only [hv, Bool.not_false, if_true, mmRead, smScanWith_allShorter mmScanLimit ls h]
+    simp only [hv, Bool.not_false, if_true, mmReadWith, smScanWith_allShorter mmScanLimit ls h]
     unfold survivors
     congr 1
     symm
@@ -695,45 +732,83 @@ theorem metricsmeta_rewrite_exact (victim : Nat → Bool) (ls : List SmLine) (h 
     have := (List.any_eq_false.mp hv) l hl
     simpa using this
 
-/-- The full statement (lines of any length — a MetricsMeta line carries the segment's whole tag-key set) is
-false for the code as it is: the rewrite goes on after the scanner's error with the lines it got, so every
-entry from the first line of ≥ 64 KiB on is dropped from the file, survivors included. -/
-theorem metricsmeta_rewrite_exact_counterexample :
-    ¬ ∀ (victim : Nat → Bool) (ls : List SmLine),
-        (mmRead (mmRemove false victim (.lines ls))).1 = survivors victim ls := by
-  intro h
-  have := h (fun k => k == 1) [.entry 1 0 1 300, .entry 2 0 2 300, .entry 3 0 3 mmScanLimit, .entry 4 0 4 300]
-  revert this
-  decide
+/-- **No survivor is ever dropped from metricmeta.json** — at full strength, for EVERY file (lines of any
+length, junk, duplicates) and every key set: an entry whose key was not to be removed is still a line of the
+file afterwards.  (False before the repair: `metricsmeta_rewrite_old_drops_tail`.) -/
+theorem metricsmeta_rewrite_keeps_survivors (nilMap : Bool) (victim : Nat → Bool) (ls : List SmLine) (l : SmLine)
+    (hl : l ∈ ls) (he : l.isEntry = true) (hv : victim l.key = false) :
+    l ∈ (mmRemove nilMap victim (.lines ls)).lineList := by
+  unfold mmRemove
+  split
+  · exact hl
+  · simp only
+    split
+    · exact hl
+    · rename_i herr
+      simp only [Bool.not_eq_true] at herr
+      rw [smScanWith_noErr mmScanLimit ls herr]
+      split
+      · exact hl
+      · have hk : l ∈ (ls.filter (·.isEntry)).filter (fun l => !victim l.key) :=
+          List.mem_filter.mpr ⟨List.mem_filter.mpr ⟨hl, he⟩, by simp [hv]⟩
+        split
+        · rename_i hemp
+          rw [List.isEmpty_iff.mp hemp] at hk
+          simp at hk
+        · exact hk
 
-/-- … characterised: with a victim before the first over-long line, the rewritten file lists the
-survivors among the lines BEFORE it and nothing else -/
-theorem metricsmeta_rewrite_drops_tail (victim : Nat → Bool) (pre post : List SmLine) (long : SmLine)
-    (hp : AllShorter mmScanLimit pre) (hl : mmScanLimit ≤ long.len)
-    (hv : ((pre.filter (·.isEntry)).any (fun l => victim l.key)) = true) :
-    mmRead (mmRemove false victim (.lines (pre ++ long :: post))) = (survivors victim pre, false) := by
-  have hsc := smScanWith_prefix mmScanLimit pre post long hp hl
-  have := metricsmeta_rewrite_exact victim pre hp
-  unfold mmRemove at this ⊢
-  simp only [Bool.false_eq_true, if_false, smScanWith_allShorter mmScanLimit pre hp, hsc, hv, Bool.not_true] at this ⊢
-  exact this
+/-- … and nothing but victims is ever removed: the file afterwards is the file before, or exactly its
+surviving entries (the scan was complete) -/
+theorem metricsmeta_rewrite_all_or_nothing (nilMap : Bool) (victim : Nat → Bool) (ls : List SmLine) :
+    mmRemove nilMap victim (.lines ls) = .lines ls
+      ∨ (mmRemove nilMap victim (.lines ls)).lineList = survivors victim ls := by
+  unfold mmRemove
+  split
+  · exact Or.inl rfl
+  · simp only
+    split
+    · exact Or.inl rfl
+    · rename_i herr
+      simp only [Bool.not_eq_true] at herr
+      rw [smScanWith_noErr mmScanLimit ls herr]
+      split
+      · exact Or.inl rfl
+      · right
+        split
+        · rename_i hemp
+          unfold survivors
+          rw [List.isEmpty_iff.mp hemp]
+          rfl
+        · rfl
 
-/-- the metrics half of a pass over a file of short lines: exactly the entries whose key's (last) entry is
-expired are gone afterwards -/
+/-- a file the scanner cannot read to its end is left exactly as it is -/
+theorem metricsmeta_rewrite_unchanged_on_read_error (nilMap : Bool) (victim : Nat → Bool) (ls : List SmLine)
+    (h : ∃ l ∈ ls, mmScanLimit ≤ l.len) : mmRemove nilMap victim (.lines ls) = .lines ls := by
+  unfold mmRemove
+  split
+  · rfl
+  · simp [smScanWith_tooLong mmScanLimit ls h]
+
+/-- the metrics half of a pass over a file of lines shorter than 64 MiB: exactly the entries whose key's (last)
+entry is expired are gone afterwards -/
 theorem metrics_pass_exact (expired : SmLine → Bool) (ls : List SmLine) (h : AllShorter mmScanLimit ls) :
     mmRead (mmPass expired (.lines ls)) = (survivors (mmExpiredKey expired (ls.filter (·.isEntry))) ls, false) := by
   unfold mmPass
-  simp only [mmRead, smScanWith_allShorter mmScanLimit ls h, Bool.false_eq_true, if_false]
+  simp only [mmRead, mmReadWith, smScanWith_allShorter mmScanLimit ls h, Bool.false_eq_true, if_false]
   exact metricsmeta_rewrite_exact _ ls h
 
-/-- One line of ≥ 64 KiB in metricmeta.json and no pass deletes anything any more (`ReadMetricsMeta` returns
-an error, all three passes return): expired segments stay listed, for ever. -/
+/-- the line that stopped all retention before the repair (65536 bytes: some 2700 tag keys) is handled now -/
+example : mmRead (mmPass (fun l => l.key == 1) (.lines [.entry 1 0 1 300, .entry 2 0 2 mmScanLimitOld]))
+    = ([.entry 2 0 2 mmScanLimitOld], false) := by decide
+
+/-- What is left of the defect: a line of ≥ 64 MiB (millions of tag keys in one segment) still makes
+`ReadMetricsMeta` fail, and then no pass deletes anything — but nothing is lost. -/
 theorem metrics_pass_blocked_by_long_line (expired : SmLine → Bool) (ls : List SmLine)
     (h : ∃ l ∈ ls, mmScanLimit ≤ l.len) : mmPass expired (.lines ls) = .lines ls := by
   unfold mmPass
-  simp [mmRead, smScanWith_tooLong mmScanLimit ls h]
+  simp [mmRead, mmReadWith, smScanWith_tooLong mmScanLimit ls h]
 
-/-- so "every expired metrics segment is deleted" is false without the bound on the line length -/
+/-- so "every expired metrics segment is deleted" needs the (now 64 MiB) bound on the line length -/
 theorem metrics_pass_deletes_expired_counterexample :
     ¬ ∀ (expired : SmLine → Bool) (ls : List SmLine) (l : SmLine),
         l ∈ ls → l.isEntry = true → expired l = true → l ∉ (mmRead (mmPass expired (.lines ls))).1 := by
@@ -743,7 +818,51 @@ theorem metrics_pass_deletes_expired_counterexample :
   revert this
   decide
 
-example : AllShorter mmScanLimit [.entry 1 0 1 300, .entry 2 1 2 65535] := by
-  intro l hl; simp at hl; rcases hl with rfl | rfl <;> decide
+example : AllShorter mmScanLimit [.entry 1 0 1 300, .entry 2 1 2 65536, .entry 3 0 3 2000000] := by
+  intro l hl; simp at hl; rcases hl with rfl | rfl | rfl <;> decide
+
+/-! #### the behaviour before the repairs (`mmReadOld`, `mmRemoveOld`, `mmPassOld`: 64 KiB scanner, rewrite from a partial read) -/
+
+/-- before the repair the exactness statement was false for lines of any length: the rewrite went on after
+the scanner's error with the lines it had got -/
+theorem metricsmeta_rewrite_exact_old_counterexample :
+    ¬ ∀ (victim : Nat → Bool) (ls : List SmLine),
+        (mmReadOld (mmRemoveOld false victim (.lines ls))).1 = survivors victim ls := by
+  intro h
+  have := h (fun k => k == 1) [.entry 1 0 1 300, .entry 2 0 2 300, .entry 3 0 3 mmScanLimitOld, .entry 4 0 4 300]
+  revert this
+  decide
+
+/-- … characterised: with a victim before the first line of ≥ 64 KiB, the rewritten file listed the survivors
+among the lines BEFORE it and nothing else — every entry from that line on was dropped, survivors included -/
+theorem metricsmeta_rewrite_old_drops_tail (victim : Nat → Bool) (pre post : List SmLine) (long : SmLine)
+    (hp : AllShorter mmScanLimitOld pre) (hl : mmScanLimitOld ≤ long.len)
+    (hv : ((pre.filter (·.isEntry)).any (fun l => victim l.key)) = true) :
+    (mmRemoveOld false victim (.lines (pre ++ long :: post))).lineList = survivors victim pre := by
+  have hsc := smScanWith_prefix mmScanLimitOld pre post long hp hl
+  unfold mmRemoveOld
+  simp only [Bool.false_eq_true, if_false, hsc, hv, Bool.not_true]
+  split
+  · rename_i hemp
+    unfold survivors
+    rw [List.isEmpty_iff.mp hemp]
+    rfl
+  · rfl
+
+/-- "no survivor is ever dropped" was false before the repair -/
+theorem metricsmeta_rewrite_keeps_survivors_old_counterexample :
+    ¬ ∀ (victim : Nat → Bool) (ls : List SmLine) (l : SmLine), l ∈ ls → l.isEntry = true → victim l.key = false →
+        l ∈ (mmRemoveOld false victim (.lines ls)).lineList := by
+  intro h
+  have := h (fun k => k == 1) [.entry 1 0 1 300, .entry 2 0 2 300, .entry 3 0 3 mmScanLimitOld, .entry 4 0 4 300]
+    (.entry 4 0 4 300) (by simp) rfl rfl
+  revert this
+  decide
+
+/-- before the repair one line of ≥ 64 KiB in metricmeta.json and no pass deleted anything any more -/
+theorem metrics_pass_old_blocked_by_long_line (expired : SmLine → Bool) (ls : List SmLine)
+    (h : ∃ l ∈ ls, mmScanLimitOld ≤ l.len) : mmPassOld expired (.lines ls) = .lines ls := by
+  unfold mmPassOld
+  simp [mmReadOld, mmReadWith, smScanWith_tooLong mmScanLimitOld ls h]
 
 end SigModel.Props.C14
